@@ -479,7 +479,10 @@ def make_sig_table(small=False):
     sigs = [S[0], S1high, S[1], S1ht4, S1ht0, S1ht81, S1pad, Swrong, Sgarb, Slen, b"", Sgarb2, Smid]
     mkeys = [K[0], K[1], K[2], K05, K1u]
     msigs = [S[0], S[1], S[2], b"", Swrong, S1high, Sgarb]
-    if small:
+    if small == "medium":
+        mkeys = [K[0], K[1], K[2], K05]
+        msigs = [S[0], S[1], S[2], b"", Swrong, Sgarb]
+    elif small:
         mkeys = [K[0], K[1], K05]
         msigs = [S[0], S[1], b"", Swrong, Sgarb]
     names = {}
